@@ -291,6 +291,55 @@ for _k in range(1, 21):
     PROPS.setdefault("C%02d" % _k, dict(level="other", needs_ext=True, explanation="see DESIGN.md section 8"))
 
 
-CLAIMED = {"C20", "C02", "C05", "C06", "C16", "C18", "C11", "C14", "C17", "C07", "C15", "C08", "C09", "C19"}
+PROPS["C01"] = dict(
+    level="other", needs_ext=True,
+    technique="contract-based deductive verification of the Python glue of the record-file format (own VC generator over the real "
+              "ast + z3/cvc5: header key handling, reserved-key matching, compatibility check) plus a labelled bounded byte-for-byte "
+              "round-trip oracle on real files for the C++ I/O (fwrite/fread, header scan), which the generator cannot reach",
+    level_text="Proved: _match_key finds the reserved header entries case-insensitively and never confuses them with user keys that "
+               "lack the underscore; _make_header keeps every user key, drops the reserved bookkeeping keys in either case, records "
+               "_DTYPE/_VERSION and leaves the caller's dict untouched; the binary branch of _ensure_compatible_dtype. Bounded: "
+               "byte-for-byte round trip of random packed dtypes (all item types of the statement, sub-arrays to 3-d, both byte "
+               "orders, NaN payloads, embedded NULs, strided views) with twelve header shapes (END/SIZE words, quotes, newlines, "
+               "non-ASCII, nested literals, look-alike keys) through the eight entry points.",
+    level_note="The deciding code (Records::Write, ReadAllAsBinary, read_sfile_header) is C++ over FILE*: not under contract; "
+               "eval-based header parsing is Python's own parser (trusted). Hence level 'bounded'.",
+    explanation="Mixed, reported separately in the evidence: discharged obligations cover the Python header/compatibility glue only; "
+                "the round-trip statement itself is a bounded oracle over a seeded domain of tables x headers x entry points.",
+    limit_quick=400, limit_thorough=20000)
+
+PROPS["C03"] = dict(
+    level="other", needs_ext=True,
+    technique="contract-based deductive verification of the append bookkeeping in SFile (own VC generator + z3/cvc5: compatibility "
+              "check with exceptional postconditions, row-count update, write order) against assumed contracts of the C++ "
+              "callees, plus a labelled bounded oracle over operation histories on real files",
+    level_text="Proved, per name structure of file and chunk dtypes: _ensure_compatible_dtype rejects with ValueError exactly the "
+               "chunks whose field count, names, types or sub-array shapes differ (binary: exact dtype; text: byte order ignored) "
+               "and accepts the others; SFile.write performs the check before anything is written, so a rejected append changes "
+               "neither the handle nor (through the assumed callee contracts) the file; _update_size adds the chunk's row count to "
+               "the cached count, the header dict and the SIZE line. Bounded: random histories over create / write again / close / "
+               "append by reopening / append to a missing file / overwrite / incompatible append (five kinds), binary and three "
+               "delimiters, read back and header compared after every step, file bytes compared around every rejected append.",
+    level_note="Assumed contracts: Records.update_row_count (rewrites the SIZE line with the given count), Recfile.write (appends "
+               "the rows at the end of the file). Mode selection in SFile.open (append to a missing file) is covered by the bounded "
+               "oracle only.",
+    explanation="Mixed, reported separately: obligations discharged for the Python bookkeeping; histories are a bounded oracle.",
+    limit_quick=400, limit_thorough=20000)
+
+PROPS["C04"] = dict(
+    level="other", needs_ext=True,
+    technique="contract-based deductive verification of the Python glue of the text form (own VC generator + z3/cvc5: native-order "
+              "conversion of a copy before writing, byte-order-free compatibility check) plus a labelled bounded round-trip oracle "
+              "on real files for the C++ printf/scanf code, which the generator cannot reach",
+    level_text="Proved: Recfile.write hands the C++ writer a native-order copy of the table for the text form and never writes "
+               "through the caller's array; the text branch of _ensure_compatible_dtype ignores byte order only. Bounded: random "
+               "tables over {i1..u8, f4, f8, S1..S12} x {scalar, 1-d, 2-d} x both byte orders with type extremes, many decades, "
+               "NaN, signed infinities, signed zero, strings with leading / embedded / trailing blanks and delimiter characters, six "
+               "delimiters, four entry points; integers and strings compared exactly, floats to 16 / 7 significant digits.",
+    level_note="The formatting and scanning code (records.cpp) is not under contract; hence level 'bounded'.",
+    explanation="Mixed, reported separately: obligations discharged for the Python glue; the round trip is a bounded oracle.",
+    limit_quick=400, limit_thorough=20000)
+
+CLAIMED = {"C01", "C03", "C04", "C20", "C02", "C05", "C06", "C16", "C18", "C11", "C14", "C17", "C07", "C15", "C08", "C09", "C19"}
 NOT_APPLICABLE = {("C%02d" % k): "check not built yet (implementation in progress; plan in DESIGN.md section 8)"
                   for k in range(1, 21) if ("C%02d" % k) not in CLAIMED}
